@@ -554,6 +554,8 @@ where
         for &(kind, value) in &case.bencher_counters {
             b = match kind {
                 0 => b.counter(BytesCount::new(value)),
+                1 => b.counter(divan::counter::CharsCount::new(value)),
+                2 => b.counter(divan::counter::CyclesCount::new(value)),
                 _ => b.counter(ItemsCount::new(value)),
             };
         }
@@ -588,6 +590,8 @@ fn drive<I: InShape, O: OutShape>(case: &LoopCase, bencher: Bencher) {
             for &(kind, value) in &case.bencher_counters {
                 b = match kind {
                     0 => b.counter(BytesCount::new(value)),
+                    1 => b.counter(divan::counter::CharsCount::new(value)),
+                    2 => b.counter(divan::counter::CyclesCount::new(value)),
                     _ => b.counter(ItemsCount::new(value)),
                 };
             }
@@ -601,6 +605,8 @@ fn drive<I: InShape, O: OutShape>(case: &LoopCase, bencher: Bencher) {
             for &(kind, value) in &case.bencher_counters {
                 b = match kind {
                     0 => b.counter(BytesCount::new(value)),
+                    1 => b.counter(divan::counter::CharsCount::new(value)),
+                    2 => b.counter(divan::counter::CyclesCount::new(value)),
                     _ => b.counter(ItemsCount::new(value)),
                 };
             }
